@@ -509,6 +509,15 @@ def c04(ctx):
     # (a) design level: unit grammar realised by Feed; closed byte-level graph
     res_u = vlib.tlc_mc(ctx.workdir, "MC_Decoder", "SPECIFICATION SpecUnits\nVIEW ViewUnits\nINVARIANT TypeInv\nCHECK_DEADLOCK FALSE\n", want_T=False)
     ctx.add_mc(res_u)
+    if ctx.tier == "thorough":
+        # all 256 byte values, unbounded runs: the decoder's structural invariant is inductive (Apalache)
+        mod = os.path.join(vlib.SPECS, "apalache", "DecoderInd.tla")
+        base = vlib.apalache_check(ctx.workdir, mod, ["--init=Init", "--inv=IndInv", "--length=0"])
+        step = vlib.apalache_check(ctx.workdir, mod, ["--init=IndInit", "--inv=IndInv", "--length=1"])
+        ctx.extra["apalache_inductive_invariant"] = {"module": "apalache/DecoderInd.tla", "base": base, "step": step,
+                                                     "meaning": "decoder control invariant inductive over all 256 byte values"}
+        if not (base and step):
+            raise vlib.ToolError("Apalache: the decoder invariant of the specification is not inductive (specification problem)")
     paths = decoder_graph(ctx)
     # (b) every transition of the closed graph that lies within C04's unit grammar replayed
     # on the real InputGenerator (the others are C02's: see there)
